@@ -65,6 +65,17 @@ func binom(n, k uint64) *big.Int {
 	return r
 }
 
+// binomBig returns C(n,k) for small k without any cap.
+func binomBig(n, k uint64) *big.Int {
+	r := big.NewInt(1)
+	t := new(big.Int)
+	for i := uint64(1); i <= k; i++ {
+		r.Mul(r, t.SetUint64(n-k+i))
+		r.Quo(r, t.SetUint64(i))
+	}
+	return r
+}
+
 // class says what the property demands of a binomial-valued call with result type bound
 // `limit`: must return (val*min(k,n-k) <= limit), may return (val <= limit), must panic.
 type class struct {
@@ -654,6 +665,28 @@ func gen(g *hx.Gen) {
 			}
 		}
 	}
+	// the boundary hi == d of the 128-bit division in Unrank's walk: C(l+1,k) in [2^64, 2^64 + 2^64/d)
+	// with d = l+1-k =: e.  That needs l+1 <= 2k, i.e. subsets [0,1,...,k-2,k+e-1]: for every e the
+	// sizes k with C(k+e,e) just above 2^64, rank C(k+e-1,e-1) (+0,+1).  (For e <= 5 the size k is
+	// beyond what the model driver walks in reasonable time: those go to the oracle-only stream.)
+	for e := uint64(3); e <= 40; e++ {
+		lim := new(big.Int).Add(two64, new(big.Int).Quo(two64, new(big.Int).SetUint64(e)))
+		k0 := lastTrue(1, func(k uint64) bool { return k < 1<<40 && binomBig(k+e, e).Cmp(two64) < 0 }) + 1
+		for k := k0; k < k0+3 && k < 8000000; k++ {
+			if k < 2 || binomBig(k+e, e).Cmp(lim) >= 0 {
+				break
+			}
+			r := binomBig(k+e-1, e-1)
+			if !r.IsInt64() {
+				break
+			}
+			unrankCase(uint64(r.Int64()), int(k))
+			if k <= 100000 {
+				unrankCase(uint64(r.Int64())+1, int(k))
+			}
+		}
+	}
+
 	// every r < 5000 for k <= 6 (short walks on small numbers: a budget of their own)
 	modelSteps, modelBudget = 0, float64(g.Pick(1500000, 40000000))
 	for k := 2; k <= 6; k++ {
